@@ -411,9 +411,11 @@ class Problem:
                 if all_same:
                     # All variables from one VectorVariable. A plain vector is
                     # already in natural order (sorting is then linear); views
-                    # such as x[::-1] or a transposed row are not.
+                    # such as x[::-1] or a transposed row are not, and a view
+                    # of a symmetric matrix can hold one variable twice.
                     self._variables = sorted(
-                        source_vector._variables, key=_natural_sort_key
+                        dict.fromkeys(source_vector._variables),
+                        key=_natural_sort_key,
                     )
                     return self._variables
 
